@@ -12,14 +12,16 @@ Logs == JsonDeserialize(IOEnv.IN_FILE)
 
 VARIABLES n, l, mon, bad
 vars == <<n, l, mon, bad>>
-Init == n = 1 /\ l = 1 /\ mon = MonInit /\ bad = <<>>
+Focus == IF "FOCUS" \in DOMAIN IOEnv THEN IOEnv.FOCUS ELSE ""
+Mon0 == [MonInit EXCEPT !.focus = Focus]
+Init == n = 1 /\ l = 1 /\ mon = Mon0 /\ bad = <<>>
 
 Step == /\ n <= Len(Logs) /\ l <= Len(Logs[n])
         /\ mon' = MonStep(mon, Logs[n][l])
         /\ bad' = IF mon.viol = "" /\ mon'.viol # "" THEN Append(bad, [k |-> n, l |-> l, c |-> mon'.viol]) ELSE bad
         /\ l' = l + 1 /\ n' = n
 NextLog == /\ n <= Len(Logs) /\ l > Len(Logs[n])
-           /\ n' = n + 1 /\ l' = 1 /\ mon' = MonInit /\ bad' = bad
+           /\ n' = n + 1 /\ l' = 1 /\ mon' = Mon0 /\ bad' = bad
 Finish == /\ n = Len(Logs) + 1 /\ l = 1
           /\ JsonSerialize(IOEnv.OUT_FILE, [n |-> Len(Logs), bad |-> bad])
           /\ n' = n + 1 /\ UNCHANGED <<l, mon, bad>>
